@@ -31,6 +31,8 @@ ALPHABET = {
     "masks": "all 2^C-1 non-empty masks for C<=8 cells; single-off, single-on, checkerboard, shell, slabs above",
     "voxel maps": "all maps cells->{-1,0,1,2} in restricted-growth form (all set partitions into <=3 sources with holes) for C<=6 cells "
                   "+ label-reversed and gap-labelled variants; merged slabs / pairs / reversed identity / gaps / one source above",
+    "pipelines": "VectorCamera(pixel rays = lattice rays) + RayTransferPipeline2D and SightLine(sensitivity 2.5) + RayTransferPipeline0D, "
+                 "kind in {radiance, power}, pixel_samples in {1, 3}, one-source-per-cell map and a merged map with holes",
     "map application": "alternately via the mask/voxel_map setter of the live object and via the constructor argument of a fresh object",
 }
 BOUND = {
@@ -56,6 +58,8 @@ REQUIRED_CLASSES = [
     "map:mask", "map:voxel_map", "map:via-setter", "map:via-constructor", "map:with-holes", "map:merged", "map:empty-bin",
     "tf:identity", "tf:translate", "tf:rotate_y90", "tf:generic",
     "cyl:hole", "cyl:solid", "cyl:period<360", "cyl:axisymmetric",
+    "box:pipeline", "cyl:pipeline", "pipeline:2D:radiance", "pipeline:2D:power", "pipeline:0D:radiance", "pipeline:0D:power",
+    "pipeline:pixel_samples=1", "pipeline:pixel_samples=3", "pipeline:identity-map", "pipeline:merged-map",
 ]
 BUDGET_S = {"quick": 600, "thorough": 3600}      # caps for a loaded machine; measured CPU: quick ~170 s, thorough ~3000 s (16 workers: ~15 s / ~4 min)
 CHUNK = 1
@@ -383,6 +387,16 @@ def cases(tier):
         for sm, tf in variants:
             for lo in range(0, len(fam), MAP_CHUNK):
                 out.append({"mode": "maps", "g": g, "step": sm, "tf": tf, "tier": tier, "lo": lo, "hi": min(lo + MAP_CHUNK, len(fam)), "label": "cyl-maps"})
+    # observers + ray-transfer pipelines (the matrix is what the user gets): a VectorCamera firing exactly the lattice rays
+    pg = [g for g in box_geoms("quick") if tier == "thorough" or tuple(g["shape"]) in ((1, 1, 1), (2, 2, 2), (3, 2, 1), (1, 2, 3), (3, 3, 3))]
+    pg += [g for g in cyl_geoms("quick") if (tier == "thorough" and g["period"] != 60.0) or
+           (tuple(g["shape"]), g["rin"], g["period"]) in (((2, 3, 2), 0.5, 90.0), ((2, 1, 2), 0.0, 360.0), ((1, 2, 1), 0.0, 60.0), ((3, 3, 3), 0.5, 360.0))]
+    for g in pg:
+        for pk in ("radiance", "power"):
+            for ps in (1, 3):
+                for mp in ("identity-map", "merged-map"):
+                    out.append({"mode": "pipeline", "g": g, "step": "default", "tf": "generic", "tier": tier, "pkind": pk, "pixel_samples": ps, "map": mp,
+                                "label": g["kind"] + "-pipeline"})
     return out
 
 
@@ -545,7 +559,7 @@ def run_case(case):
     if rt.bins != C:
         V.add("%s:bins:identity-map" % gc.split(":")[0], "bins of the default map is not the number of cells", C, int(rt.bins))
 
-    rtier = "quick" if case["mode"] == "maps" else tier     # the map cases always use the quick ray lattice
+    rtier = "quick" if case["mode"] in ("maps", "pipeline") else tier     # the map / pipeline cases always use the quick ray lattice
     if kind == "box":
         O, D, K = box_rays(g, rtier)
         nb = len(K)
@@ -666,6 +680,15 @@ def run_case(case):
         nontrivial = [(gk, int(i)) for i in np.nonzero(hit[:nb])[0]] if case["step"] == "default" and case["tf"] == "identity" else [(gk, case["step"], case["tf"], int(hit.sum()))]
         outcome = (gk, case["step"], case["tf"], round(float(tot.sum()), 6), len(exc))
 
+    elif case["mode"] == "pipeline":
+        r = _run_pipeline(case, g, gc, world, rt, O, D, Ow, Dw, K, nb, hit, ref, V, classes)
+        if "harness_error" in r:
+            return r
+        ntrace = r["ntrace"]
+        states = [(gk, "pipeline", case["pkind"], case["pixel_samples"], case["map"])]
+        nontrivial = [(gk, "pipeline", case["pkind"], case["pixel_samples"], case["map"])]
+        outcome = (gk, "pipeline", case["pkind"], case["pixel_samples"], case["map"], r["total"])
+
     else:  # maps
         fam = map_family(g["shape"], tier)[case["lo"]:case["hi"]]
         # rays used for the maps: the declared sub-lattice "every 3rd hitting base ray of the quick ray lattice"
@@ -768,6 +791,118 @@ def run_case(case):
 
     return {"viol": V.out(), "classes": classes, "outcome": outcome, "n": max(ntrace, 1), "states": states,
             "transitions": max(ntrace, 1), "nontrivial": nontrivial}
+
+
+def _run_pipeline(case, g, gc, world, rt, O, D, Ow, Dw, K, nb, hit, ref, V, classes):
+    """VectorCamera + RayTransferPipeline2D and SightLine + RayTransferPipeline0D observing exactly the lattice rays:
+    the matrix rows must equal the spectral arrays of the same rays traced directly (radiance kind; power kind =
+    radiance x sensitivity, sensitivity 1 for the VectorCamera) and, for the one-source-per-cell map, sum to the chord."""
+    import numpy as np
+    from raysect.optical import Point3D, Vector3D, AffineMatrix3D
+    from raysect.optical.observer import VectorCamera, SightLine
+    from raysect.core.workflow import SerialEngine
+    from cherab.tools.raytransfer import RayTransferPipeline0D, RayTransferPipeline2D
+    C = int(np.prod(g["shape"]))
+    if case["map"] == "merged-map":
+        idx = list(np.ndindex(*g["shape"]))
+        vm = np.array([-1 if (sum(ix) % 4 == 3) else (ix[0] + ix[2]) % 2 for ix in idx], dtype=np.int32).reshape(g["shape"])
+        if vm.max() < 0:
+            vm[...] = 0
+        rt.voxel_map = vm
+    bins = int(rt.bins)
+    hits = [int(i) for i in np.nonzero(hit[:nb])[0]][::5][:96]
+    miss = [int(i) for i in np.nonzero(~hit[:nb])[0]][::50][:24]
+    sel = hits + miss
+    if len(hits) < 8:
+        return {"harness_error": "pipeline case with fewer than 8 hitting rays: %r" % (case,)}
+    # VectorCamera anti-aliases *interior* pixels by random interpolation between the neighbours' directions;
+    # with only two columns every pixel is an edge pixel and fires exactly its own ray
+    nx, ny = len(sel) // 2, 2
+    sel = sel[:nx * ny]
+    E, exc = _trace_all(world, bins, Ow, Dw, sel)
+    ntrace = len(sel)
+    po = np.empty((nx, ny), dtype=object)
+    pd = np.empty((nx, ny), dtype=object)
+    for k, i in enumerate(sel):
+        po[k // ny, k % ny] = Point3D(*Ow[i])
+        pd[k // ny, k % ny] = Vector3D(*Dw[i])
+    pk, ps = case["pkind"], case["pixel_samples"]
+
+    def setup(obs):
+        obs.spectral_bins = bins
+        obs.min_wavelength, obs.max_wavelength = 500.0, 501.0
+        obs.spectral_rays = 1
+        obs.pixel_samples = ps
+        obs.ray_extinction_prob = 0.0
+        obs.ray_extinction_min_depth = 50
+        obs.ray_max_depth = 100
+        obs.quiet = True
+        obs.render_engine = SerialEngine()
+    pipe = RayTransferPipeline2D(kind=pk)
+    cam = VectorCamera(po, pd, pipelines=[pipe], parent=world)
+    setup(cam)
+    try:
+        cam.observe()
+        M = np.asarray(pipe.matrix)
+    except Exception as e:  # noqa
+        V.add("pipeline:2D:%s:raises:%s" % (pk, type(e).__name__), "observing with RayTransferPipeline2D raised", "a matrix", "%s: %s" % (type(e).__name__, str(e)[:200]))
+        M = None
+    ntrace += len(sel) * ps
+    cam.parent = None
+    scale = np.maximum(1.0, ref["chord_hi"])
+    if M is not None:
+        if M.shape != (nx, ny, bins):
+            V.add("pipeline:2D:%s:matrix-shape" % pk, "matrix shape is not (Nx, Ny, Nbin)", [nx, ny, bins], list(M.shape))
+        else:
+            for k, i in enumerate(sel):
+                if i in exc:
+                    continue
+                row = M[k // ny, k % ny]
+                if (np.abs(row - E[i, :bins]) > 1e-12 * scale[i]).any():
+                    V.add("pipeline:2D:%s:row-vs-direct-trace:%s" % (pk, "samples>1" if ps > 1 else "samples=1"),
+                          "row of the ray-transfer matrix differs from the spectral array of the same ray (VectorCamera, sensitivity 1)",
+                          E[i, :bins].tolist(), dict(_ray_desc(O, D, i), row=row.tolist(), pixel_samples=ps, map=case["map"]))
+                if case["map"] == "identity-map":
+                    t = float(row.sum())
+                    tol_sum = 4e-9 + 1e-12 * scale[i]
+                    if t < ref["chord_lo"][i] - tol_sum or t > ref["chord_hi"][i] + tol_sum:
+                        V.add("pipeline:2D:%s:row-sum-vs-chord" % pk, "row of the ray-transfer matrix does not sum to the chord length in the primitive",
+                              {"chord_lo": float(ref["chord_lo"][i]), "chord_hi": float(ref["chord_hi"][i])}, dict(_ray_desc(O, D, i), row=row.tolist(), pixel_samples=ps))
+    # 0D: a sight line along four of the hitting rays, sensitivity 2.5
+    sens = 2.5
+    for i in hits[:4]:
+        if i in exc:
+            continue
+        f = Dw[i]
+        up = np.array([1.0, 0.0, 0.0]) if abs(f[0]) < 0.9 else np.array([0.0, 1.0, 0.0])
+        xax = np.cross(up, f)
+        xax /= np.linalg.norm(xax)
+        yax = np.cross(f, xax)
+        m = np.eye(4)
+        m[:3, 0], m[:3, 1], m[:3, 2], m[:3, 3] = xax, yax, f, Ow[i]
+        p0 = RayTransferPipeline0D(kind=pk)
+        sl = SightLine(pipelines=[p0], parent=world, transform=AffineMatrix3D(m.tolist()), sensitivity=sens)
+        setup(sl)
+        try:
+            sl.observe()
+            row = np.asarray(p0.matrix)
+        except Exception as e:  # noqa
+            V.add("pipeline:0D:%s:raises:%s" % (pk, type(e).__name__), "observing with RayTransferPipeline0D raised", "a matrix", "%s: %s" % (type(e).__name__, str(e)[:200]))
+            sl.parent = None
+            continue
+        sl.parent = None
+        ntrace += ps
+        want = E[i, :bins] * (sens if pk == "power" else 1.0)
+        # the sight line re-derives the ray from its transform: directions agree to rounding only, so entries (N*dt) agree to ~1e-9
+        if row.shape != (bins,) or (np.abs(row - want) > 1e-8 * scale[i]).any():
+            V.add("pipeline:0D:%s:row-vs-direct-trace:%s" % (pk, "samples>1" if ps > 1 else "samples=1"),
+                  "ray-transfer matrix of a sight line differs from the spectral array of the same ray (x sensitivity for kind='power')",
+                  want.tolist(), dict(_ray_desc(O, D, i), row=row.tolist(), pixel_samples=ps, sensitivity=sens, map=case["map"]))
+    classes.append("pipeline:2D:" + pk)
+    classes.append("pipeline:0D:" + pk)
+    classes.append("pipeline:pixel_samples=%d" % ps)
+    classes.append("pipeline:" + case["map"])
+    return {"ntrace": ntrace, "total": round(float(E.sum()), 6)}
 
 
 def _origin_inside(g, o):
